@@ -523,6 +523,16 @@ namespace detail {
                     decltype(boost::msm::front::puml::detail::parse_guard_simple(
                         [=]() {return boost::msm::front::puml::detail::cleanup_token(guard_func().substr(last_or_pos + 2)); })) > {};
             }
+            // an || outside the parens (before or after them) binds weaker than any &&
+            else if  constexpr (parens_begin_pos != std::string::npos && parens_end_pos != std::string::npos &&
+                or_pos != std::string::npos && or_pos < parens_begin_pos)
+            {
+                return boost::msm::front::Or_<
+                    decltype(boost::msm::front::puml::detail::parse_guard_simple(
+                        [=]() {return boost::msm::front::puml::detail::cleanup_token(guard_func().substr(0, or_pos)); })),
+                    decltype(boost::msm::front::puml::detail::parse_guard_simple(
+                        [=]() {return boost::msm::front::puml::detail::cleanup_token(guard_func().substr(or_pos + 2)); })) > {};
+            }
             else if constexpr (parens_begin_pos != std::string::npos && parens_end_pos != std::string::npos &&
                 last_and_pos != std::string::npos && parens_end_pos < last_and_pos)
             {
@@ -533,16 +543,7 @@ namespace detail {
                         [=]() {return boost::msm::front::puml::detail::cleanup_token(guard_func().substr(last_and_pos + 2)); })) > {};
             }
             else if  constexpr (parens_begin_pos != std::string::npos && parens_end_pos != std::string::npos &&
-                or_pos != std::string::npos && or_pos < and_pos && or_pos < parens_begin_pos)
-            {
-                return boost::msm::front::Or_<
-                    decltype(boost::msm::front::puml::detail::parse_guard_simple(
-                        [=]() {return boost::msm::front::puml::detail::cleanup_token(guard_func().substr(0, or_pos)); })),
-                    decltype(boost::msm::front::puml::detail::parse_guard_simple(
-                        [=]() {return boost::msm::front::puml::detail::cleanup_token(guard_func().substr(or_pos + 2)); })) > {};
-            }
-            else if  constexpr (parens_begin_pos != std::string::npos && parens_end_pos != std::string::npos &&
-                and_pos != std::string::npos && and_pos < or_pos && and_pos < parens_begin_pos)
+                and_pos != std::string::npos && and_pos < parens_begin_pos)
             {
                 return boost::msm::front::And_<
                     decltype(boost::msm::front::puml::detail::parse_guard_simple(
